@@ -413,6 +413,9 @@ impl Vm {
         self.reset_stack();
         self.chunks = self.core_chunks.clone();
         self.modules.retain(|&k, _| k.as_str() == "main");
+        // A new interpreter has cached no ranges; entries that survived would be evicted before the
+        // ranges cached after the reset, so `a..b == a..b` could differ from a new interpreter.
+        self.range_cache.clear();
         self.active_module = self.module("main");
         self.active_module.borrow_mut().attributes = self.core_globals.clone();
         self.init_built_in_globals("main");
